@@ -68,12 +68,13 @@ pub mod block {
     use vstd::prelude::*;
     verus! {
     pub open spec fn base_reward(h: u64) -> u64 { if h / 210000 < 64 { 5_000_000_000u64 >> (h / 210000) } else { 0 } }
-    /// contract proved by Kani (block_base_reward_halving) for every height below 64 halvings
-    #[verifier::external_body]
-    pub const fn get_base_reward(block_height: u64) -> (r: u64)
+//@extract fn src/blockchain/proto/block.rs :: - :: get_base_reward
+//@spec
         requires block_height < 64 * 210000,   // SAFETY-SHIM: the shift overflows beyond (documented precondition)
-        ensures r == base_reward(block_height),
-    { unimplemented!() }
+        ensures
+            //# C15:base_reward_halves_every_210000
+            r == base_reward(block_height),
+//@end
     }
 }
 pub use block::base_reward;
